@@ -68,6 +68,6 @@ theorem parseTlv_eq (s : Str) (tl ll fuel : Nat) :
   simp only [Gen.TlvPy.parseTlv, Tlv.parseTlvFuel, Tlv.parseWith, h]
   cases s with
   | nil => simp [viewRes, statusOpt]
-  | cons c s => simp
+  | cons c s => simp <;> omega
 end N0.TlvGenEq
 
